@@ -53,6 +53,22 @@ theorem alias_write_frame (g g' : Graph) (p : Path) (attr : String) (v : Option 
     · exact h h2
   simp [this]
 
+/-- data written through path `q` is what every path to the same array reads -/
+theorem alias_data_write_visible (s s' : DState) (q r : Path) (lq lr : Loc) (vals : List Rat)
+    (hw : writeData s q vals = .ok s') (hq : resolve s.g rootLoc q = some lq)
+    (hr : resolve s.g rootLoc r = some lr) (h : lr.key = lq.key) :
+    resolve s'.g rootLoc r = some lr ∧ ∃ d, dataOf s lq.key = some d ∧
+      dataOf s' lr.key = some { d with vals := vals } := by
+  obtain ⟨a, ds, d, ha, hds, hd, hs'⟩ := writeData_ok hw
+  obtain ⟨l, hl, hla, _⟩ := arrayAt_ok ha
+  rw [hq] at hl
+  cases hl
+  subst hla
+  subst hs'
+  refine ⟨hr, d, by simp [dataOf, hds, hd], ?_⟩
+  rw [h]
+  simp [dataOf, hds, look_put_self]
+
 /-- every path resolves after the write exactly as before -/
 theorem alias_paths_stable (g g' : Graph) (p : Path) (attr : String) (v : Option String)
     (hw : setAttrOp g p attr v = .ok g') (q : Path) : resolve g' rootLoc q = resolve g rootLoc q := by
@@ -141,6 +157,24 @@ theorem accept_role_iff_same_block (g : Graph) (p : Path) (role : String) (t b :
     by_cases h1 : kindOf g t = "data_array"
     · by_cases h2 : inBlockStore g b "data_arrays" t = true <;> simp [h1, h2]
     · simp [h1]
+
+/-- an accepted `positions` / `extents` assignment links the target node itself: the role link of
+the multi-tag leads to the very node `t` -/
+theorem role_links_target_itself (g g' : Graph) (p : Path) (role : String) (t b : Nat) (o : Loc)
+    (hrole : role = "positions" ∨ role = "extents")
+    (ho : resolve g rootLoc p = some o) (hk : kindOf g o.key = "multi_tag") (hb : blockOfPath g p = some b)
+    (h : setRole g p role (some t) = .ok g') : g'.child? o.key role = some t := by
+  have hnode : (g.node? o.key).isSome := kindOf_ne_empty_node (by rw [hk]; decide)
+  rcases hrole with rfl | rfl <;>
+  · unfold setRole at h
+    simp only [ho, hk, hb, isKind] at h
+    by_cases h1 : kindOf g t = "data_array"
+    · by_cases h2 : inBlockStore g b "data_arrays" t = true
+      · simp [h1, h2] at h
+        subst h
+        exact child?_createLinkIn_self g _ t hnode
+      · simp [h1, h2] at h
+    · simp [h1] at h
 
 /-- feature data: the assignment succeeds iff the item is a DataArray / DataFrame stored under
 its name in the feature's block as that very node (a DataFrame only for untagged/indexed links) -/
@@ -291,18 +325,21 @@ theorem ticks_link_exclusive (s s' : DState) (p : Path) (i dn : Nat) (hdn : dimA
     rw [this] at h2; cases h2
 
 /-- the invariant "no range dimension anywhere in the file carries both explicit ticks and a
-link" is kept by every operation that writes ticks or links or data (for ALL descriptors of the
-file, not only the one operated on) -/
+link" is kept by every operation on existing descriptors — ticks, link, unlink, labels, unit /
+label, array data — for ALL descriptors of the file, not only the one operated on -/
 theorem ticks_link_exclusive_invariant (s s' : DState) (hex : Excl s) (hfresh : s.g.node? s.g.nextKey = none)
     (h : (∃ p i ts, setTicks s p i ts = .ok s') ∨
          (∃ p i t iv, linkDataArray s p i t iv = .ok s' ∧ ∀ dn, dimAt s p i = .ok dn →
             kindOf s.g dn = kDimRange ∨ kindOf s.g dn = kDimSet ∨ kindOf s.g dn = kDimSample) ∨
-         (∃ p i, removeLink s p i = .ok s') ∨ (∃ q vals, writeData s q vals = .ok s')) : Excl s' := by
-  rcases h with ⟨p, i, ts, h⟩ | ⟨p, i, t, iv, h, hk⟩ | ⟨p, i, h⟩ | ⟨q, vals, h⟩
+         (∃ p i, removeLink s p i = .ok s') ∨ (∃ q vals, writeData s q vals = .ok s') ∨
+         (∃ p i ls, setLabels s p i ls = .ok s') ∨ (∃ p i a v, setDimAttr s p i a v = .ok s')) : Excl s' := by
+  rcases h with ⟨p, i, ts, h⟩ | ⟨p, i, t, iv, h, hk⟩ | ⟨p, i, h⟩ | ⟨q, vals, h⟩ | ⟨p, i, ls, h⟩ | ⟨p, i, a, v, h⟩
   · exact excl_setTicks hex h
   · exact excl_linkDataArray hex hfresh hk h
   · exact excl_removeLink hex h
   · exact excl_writeData hex h
+  · exact excl_setLabels hex h
+  · exact excl_setDimAttr hex h
 
 /-- it holds in the empty file -/
 theorem ticks_link_exclusive_init : Excl initD := by
